@@ -57,6 +57,11 @@ def scalePt (f p : List Rat) : List Rat := List.zipWith (fun fi x => x * fi) f p
 /-- `p ↦ (p_i + b_i)_i` -/
 def shiftPt (b p : List Rat) : List Rat := List.zipWith (fun bi x => x + bi) b p
 
+/-- The points of a coordinate-system conversion `as_(system)`: a pointwise function `φ` (the
+rational model keeps `φ` abstract; over `ℝ` it is `toPolar` / `toCart`) of the **current** points.
+There is no other state: no cache, no memory of earlier conversions. -/
+def convPoints (φ : List Rat → List Rat) (c : Coords) : List (List Rat) := c.points.map φ
+
 /-! ## In-place coordinate arithmetic (`__imul__`, `__iadd__`, `reverse`) -/
 
 /-- apply one function per axis to the coordinate values -/
